@@ -43,8 +43,16 @@ def target_names(t):
 
 def assignments(fnode, into_nested=False):
     """name -> list of (value expr, index path or None, stmt).  `a, b = f()` records
-    (f(), (0,), stmt) for a and (f(), (1,), stmt) for b."""
-    out = {}
+    (f(), (0,), stmt) for a and (f(), (1,), stmt) for b.  (memoised on the node)"""
+    cache = getattr(fnode, "_asg_cache", None)
+    if cache is None:
+        try:
+            cache = fnode._asg_cache = {}
+        except AttributeError:
+            cache = {}
+    if into_nested in cache:
+        return cache[into_nested]
+    out = cache[into_nested] = {}
 
     def bind(t, value, path, st):
         if isinstance(t, ast.Name):
